@@ -281,6 +281,13 @@ static void run_line(const std::string &line) {
     else if (cmd == "integ") { Slot &s = S(k.next()); std::vector<double> q; s.g.integrate(q); pd("integ", q); }
     else if (cmd == "diff") { Slot &s = S(k.next()); auto m = k.keyed(); std::vector<double> x = xlist(s, m), j; s.g.differentiate(x, j); pd("diff", j); }
     else if (cmd == "hbasis") { Slot &s = S(k.next()); auto m = k.keyed(); std::vector<double> x = xlist(s, m), y; s.g.evaluateHierarchicalFunctions(x, y); pd("hbasis", y); }
+    else if (cmd == "hsparsenz") { // the three sparse-basis entry points at the same points: GetNZ, the vector overload, Static (buffers sized by the larger count)
+        Slot &s = S(k.next()); auto m = k.keyed(); std::vector<double> x = xlist(s, m), v; std::vector<int> pn, ix; int d = s.g.getNumDimensions(); int nx = (d > 0) ? (int) (x.size() / (size_t) d) : 0;
+        int nz = s.g.evaluateSparseHierarchicalFunctionsGetNZ(x.data(), nx); s.g.evaluateSparseHierarchicalFunctions(x, pn, ix, v);
+        size_t cap = std::max((size_t) std::max(nz, 0), ix.size()) + 1; std::vector<int> sp((size_t) nx + 1, 0), si(cap, -1); std::vector<double> sv(cap * (s.g.isFourier() ? 2 : 1), 0.0);
+        if (nz >= (int) ix.size()) s.g.evaluateSparseHierarchicalFunctionsStatic(x.data(), nx, sp.data(), si.data(), sv.data()); else sp[(size_t) nx] = (int) ix.size();
+        bool same = (nz >= (int) ix.size()) && std::equal(ix.begin(), ix.end(), si.begin()) && std::equal(pn.begin(), pn.end(), sp.begin());
+        pi("hsnz", std::vector<int>{nz, (int) ix.size(), sp[(size_t) nx], same ? 1 : 0}); }
     else if (cmd == "hsparse") { Slot &s = S(k.next()); auto m = k.keyed(); std::vector<double> x = xlist(s, m), v; std::vector<int> pn, ix; s.g.evaluateSparseHierarchicalFunctions(x, pn, ix, v); pi("hsp_pntr", pn); pi("hsp_indx", ix); pd("hsp_vals", v); }
     else if (cmd == "inside") { Slot &s = S(k.next()); auto m = k.keyed(); std::vector<double> x = toDbls(m["x:"]); int d = s.g.getNumDimensions(); auto ins = s.g.getDomainInside();
         std::vector<int> r; for (size_t i = 0; d && i + d <= x.size(); i += d) r.push_back(ins(std::vector<double>(x.begin() + i, x.begin() + i + d)) ? 1 : 0); pi("inside", r); }
